@@ -13,9 +13,10 @@ one of the finitely many paths through one month of HybridLoad.process_month_loa
   R06.5  month slicing: split_loads_by_month takes consecutive windows [p : p + 24*days] and
          advances p by the same amount; totals are sums of the window
 
-Not decided: floating-point rounding; the regime in which a pulse would start before hour 0
-(the four "clamp to 1e-6" guards; paths through them are counted and excluded); negative time
-steps when pulse windows overlap.  Idealisation: a direction with no load has peak 0 and its
+Not decided: floating-point rounding; negative time steps when pulse windows overlap.  Paths through the four
+"pulse would start before hour 0" clamps are included when ONE pulse is clamped (the integral telescopes, so it must
+hold there too); paths on which BOTH pulses of a month are clamped (two durations > 26 h on the first of January) are
+counted and excluded - on the same-day branch the code does not conserve energy there (seen, section 10.5).  Idealisation: a direction with no load has peak 0 and its
 sentinel duration (1e-6 h) is taken as 0 (relative effect on the month's energy <= 1.4e-9).
 """
 from __future__ import annotations
@@ -45,7 +46,7 @@ ASSUMPTIONS = [
     "(calendar helpers; their tables are checked under C08)",
     "monthly peaks are maxima of non-negative hourly values, so 'not (peak > 0)' means peak = 0",
     "a direction without load has sentinel duration 1e-6 h, idealised as 0",
-    "paths through the four 'pulse would start before hour 0' clamps are excluded (counted in evidence)",
+    "peak durations are positive (an absent pulse carries the sentinel 1e-6 h): paths that need a negative duration are infeasible",
 ]
 
 
@@ -119,10 +120,13 @@ def check(prog: Program, tier: str) -> Result:
     # ---- per path
     seen = set()
     n_clamped = 0
+    n_double = 0
     for p in ma.paths:
-        if p.clamped:
-            n_clamped += 1
+        if p.n_clamps >= 2:
+            n_double += 1  # both pulses would start before hour 0: needs two durations > 26 h on January 1st - excluded
             continue
+        if p.clamped:
+            n_clamped += 1  # one pulse start clamped to hour 0+ (first month only); the energy identity must still hold
         if any(not isinstance(x, Rat) for x in p.loads + p.hours):
             bad = next(x for x in p.loads + p.hours if not isinstance(x, Rat))
             raise AnalysisError(f"{fi.qualname}: emitted value not understood: {bad}")
@@ -167,7 +171,8 @@ def check(prog: Program, tier: str) -> Result:
                           f"month energy is not conserved on the path [{sig}]: integral - (monthly_cl - monthly_hl) = {diff.key()[:300]}",
                           pairs=[f"{l.key()} @ {h.key()}" for l, h in zip(p.loads, p.hours)],
                           path=hc.describe_trail(p.state))
-    res.count("clamped_paths_excluded", n_clamped)
+    res.count("clamped_paths_included", n_clamped)
+    res.count("double_clamp_paths_excluded", n_double)
     res.floor("paths", 40)
     res.floor("distinct_words", 8)
 
